@@ -32,6 +32,13 @@ def run(ctx):
         native = r.choice(ACCEPTED_PF) if r.random() < .8 else r.choice(ODD_PF)
         w0, h0 = r.choice([1, 16, 64, 100]), r.choice([1, 16, 64, 100])
         opts = {"nocursor": True} if r.random() < .5 else {}
+        corpus = si < 2 * len(ACCEPTED_PF)
+        if corpus:
+            # corpus (always run, in this order): one process, one connection after the other, every accepted layout twice; each
+            # fills an area inside its screen with a colour whose WIRE BYTES are the same in every session - the same bytes
+            # mean a different colour under a different layout
+            native, w0, h0, opts = ACCEPTED_PF[si % len(ACCEPTED_PF)], 16, 16, {}
+            ctx.count("corpus_same_colour_bytes_other_layout")
         c, trace, zlog = new_client("lib", **opts)
         hs = b"RFB 003.008\n" + bytes([1, 1]) + struct.pack("!I", 0) + server_init(w0, h0, native, b"d")
         chunks = [hs]
@@ -52,9 +59,20 @@ def run(ctx):
         cursor_seen = False
         checks = []       # (index of the rfb-screen line in this session's model lines, impl screen token)
         ml_extra = []
-        for ui in range(r.randint(1, 5)):
+        for ui in range(2 if corpus else r.randint(1, 5)):
             rects = []
-            for _ in range(r.choice([1, 1, 2, 3, 4])):
+            if corpus:
+                if ui == 0:
+                    rects = [enc_raw(r, pf, 0, 0, 16, 16)]
+                else:
+                    fixed = bytes([0x10, 0x80, 0xF0, 0x00])[:pf.bypp]
+                    v = int.from_bytes(fixed, "big" if pf.bigendian else "little")
+                    chan = [(v >> sh) & mx for sh, mx in ((pf.redshift, pf.redmax), (pf.greenshift, pf.greenmax), (pf.blueshift, pf.bluemax))]
+                    rgb = tuple((c * 255 + mx - 1) // mx for c, mx in zip(chan, (pf.redmax, pf.greenmax, pf.bluemax)))
+                    assert pixel_bytes(pf, rgb)[:3] == fixed[:3] or pf.bypp == 4
+                    rects = [Rect(2, 2, 4, 4, E_RRE, struct.pack("!I", 0) + pixel_bytes(pf, rgb), [(2, 2, 4, 4, [rgb] * 16)], "rre"),
+                             Rect(8, 2, 4, 4, E_CORRE, struct.pack("!I", 0) + pixel_bytes(pf, rgb), [(8, 2, 4, 4, [rgb] * 16)], "corre")]
+            for _ in range(0 if corpus else r.choice([1, 1, 2, 3, 4])):
                 j = r.random()
                 if j < .05:
                     rects.append(enc_desktop(r.choice([1, 16, 90, 200]), r.choice([1, 16, 90, 200])))
